@@ -407,16 +407,22 @@ Definition upd_miss (acc : list (addr * list Z)) (a : addr) (sh : Z) : list (add
   | Some l => (a, if existsb (Z.eqb sh) l then l else l ++ [sh]) :: List.filter (λ x : addr * list Z, negb (x.1 =? a)%N) acc
   | None => (a, [sh]) :: acc
   end.
-Fixpoint C14_jail_walk (acc : list (addr * list Z)) (pbs : list (snapshot * blk)) : bool :=
+(* [pw]: the window parameter of the previous block; [quiet]: no judgement up to this height.  When
+   governance ENLARGES the window, heights the node has already trimmed from its record (it keeps
+   only what a window can still need) would come back into view of the headers: for one new window
+   length after such a change the decision is not judged from the headers. *)
+Fixpoint C14_jail_walk (acc : list (addr * list Z)) (pw quiet : Z) (pbs : list (snapshot * blk)) : bool :=
   match pbs with
   | [] => true
   | (prev, b) :: r =>
       let g := sn_params prev in
-      let sh := h_height (k_hdr b) - 1 in
+      let h := h_height (k_hdr b) in
+      let sh := h - 1 in
+      let quiet' := if pw <? g_signedBlocksWindow g then h + g_signedBlocksWindow g else quiet in
       let s0 := if sh - g_signedBlocksWindow g <? 0 then 0 else sh - g_signedBlocksWindow g in
       let missers := List.filter (λ x : addr * del_view, missed_vote b x.1) (all_dels prev) in
       let acc1 := foldl (λ acc (x : addr * del_view), upd_miss acc x.1 sh) acc missers in
-      let ok := forallb (λ x : addr * del_view,
+      let ok := (h <=? quiet') || forallb (λ x : addr * del_view,
           let a := x.1 in
           if touched_by_tx b a || negb (Nat.eqb (count_occ_addr a (h_evidence (k_hdr b))) 0) then true else
           let all := default [] (assoc a acc1) in
@@ -424,12 +430,12 @@ Fixpoint C14_jail_walk (acc : list (addr * list Z)) (pbs : list (snapshot * blk)
           let jailed := g_signedBlocksWindow g - missed <? g_minSignedBlocks g in
           match sn_del (k_snap b) a with None => jailed | Some _ => negb jailed end) missers in
       let acc2 := List.filter (λ x : addr * list Z, match sn_del (k_snap b) x.1 with Some _ => true | None => false end) acc1 in
-      ok && C14_jail_walk acc2 r
+      ok && C14_jail_walk acc2 (g_signedBlocksWindow g) quiet' r
   end.
 Definition P_C14_jail_history (c : acase) : bool :=
   match z_gen (parse c) with
   | None => true
-  | Some g => C14_jail_walk [] (with_prev (genesis_snapshot (c_wa c) (c_wh c) g) (z_blocks (parse c)))
+  | Some g => C14_jail_walk [] (g_signedBlocksWindow (gen_params g)) 0 (with_prev (genesis_snapshot (c_wa c) (c_wh c) g) (z_blocks (parse c)))
   end.
 Definition P_C14_stake (c : acase) : bool :=
   forall_blocks c (λ prev b, P_C14_block prev b && P_C14_jail_block prev b) && P_C14_jail_history c.
